@@ -52,7 +52,7 @@ def _worker_env(tmp, seed, tier):
 
 def run_replay_subprocess(pid, case_file, tmp, seed, tier, timeout=600):
     """Re-execute one case alone in a fresh process. Returns list of violation dicts or None (harness trouble)."""
-    out = Path(tmp) / ("replay-out-%s.json" % case_hash(str(case_file) + str(time.time())))
+    out = Path(tmp) / ("replay-out-%s.json" % case_hash(str(case_file) + str(time.time()) + str(os.urandom(4))))
     wtmp = Path(tempfile.mkdtemp(prefix="rp-", dir=tmp))
     cmd = [PY, "-m", "vlib.worker", "replay", pid, str(case_file), str(out)]
     try:
@@ -130,17 +130,30 @@ def _main(pid, mod, seed, tier, args, tmp, t0):
     known_lines = []
     harness_errors = []
 
-    # 1. pinned reproducers of known / fixed findings
-    pinned = 0
+    # 1. pinned reproducers of known / fixed findings and 2. committed replay files, replayed in parallel
+    from concurrent.futures import ThreadPoolExecutor
+    jobs = []
     for i, f in enumerate(known):
         if "case" not in f:
             continue
         cf = tmp / ("known-%d.json" % i)
         cf.write_text(json.dumps({"property": pid, "case": f["case"]}))
-        viols = run_replay_subprocess(pid, cf, tmp, seed, tier)
-        pinned += 1
+        jobs.append(("known", f, cf))
+    rdir = VERIF / "replays" / pid
+    committed = sorted(p for p in rdir.glob("*.json") if not p.name.startswith("new-")) if rdir.exists() else []
+    for cf in committed:
+        jobs.append(("committed", None, cf))
+    pinned = sum(1 for j in jobs if j[0] == "known")
+    with ThreadPoolExecutor(max_workers=min(16, max(1, len(jobs)))) as ex:
+        outcomes = list(ex.map(lambda j: run_replay_subprocess(pid, j[2], tmp, seed, tier), jobs))
+    for (kind, f, cf), viols in zip(jobs, outcomes):
         if viols is None:
-            harness_errors.append("pinned reproducer %d could not be run" % i)
+            harness_errors.append("%s replay %s could not be run" % (kind, cf.name))
+            continue
+        if kind == "committed":
+            for v in viols:
+                if v["sig"] not in known_sigs:
+                    violations.append((v["sig"], v.get("detail"), json.loads(cf.read_text())["case"]))
             continue
         same = [v for v in viols if v["sig"] == f["sig"]]
         other = [v for v in viols if v["sig"] != f["sig"] and v["sig"] not in known_sigs]
@@ -152,18 +165,6 @@ def _main(pid, mod, seed, tier, args, tmp, t0):
                 violations.append((v["sig"], "recurrence of fixed finding: " + str(v.get("detail")), f["case"]))
         for v in other:
             violations.append((v["sig"], v.get("detail"), f["case"]))
-
-    # 2. committed replay files (regression tier)
-    rdir = VERIF / "replays" / pid
-    committed = sorted(p for p in rdir.glob("*.json") if not p.name.startswith("new-")) if rdir.exists() else []
-    for cf in committed:
-        viols = run_replay_subprocess(pid, cf, tmp, seed, tier)
-        if viols is None:
-            harness_errors.append("committed replay %s could not be run" % cf.name)
-            continue
-        for v in viols:
-            if v["sig"] not in known_sigs:
-                violations.append((v["sig"], v.get("detail"), json.loads(cf.read_text())["case"]))
 
     # 3. generated search, sharded
     nshards = args.shards
